@@ -39,7 +39,7 @@ InclV == { <<>>, <<<<"r">>>>, <<<<"rs">>>>, <<<<"r">>, <<"rs">>>>, <<<<"rs">>, <
            <<<<"r">>, <<"r", "q">>, <<"r", "q", "rs">>>>, <<<<"r">>, <<"r">>, <<"r">>>>, <<<<"rs">>, <<"rs">>, <<"rs", "s">>>>,
            <<<<"t">>>>, <<<<"r", "q">>, <<"t", "q">>>>, <<<<"t", "q">>, <<"r", "q">>, <<"rs", "q">>>>, <<<<"t", "q", "s">>, <<"r", "q", "t">>>> }
 FilterV == {"none", "label", "json", "empty", "bad"}
-PageV   == {"none", "size", "sizebad", "both"}
+PageV   == {"none", "size", "sizebad", "both", "other"}    \* other: a page argument that is neither number nor size
 
 VARIABLE req
 Mk(f, fl, s, i, ft, p, u) == [frags |-> f, fields |-> fl, sort |-> s, include |-> i, filter |-> ft, page |-> p, unknown |-> u]
